@@ -1022,6 +1022,10 @@ class Interp:
         if isinstance(o, Source):
             if name in ("__anext__", "__aiter__", "__next__", "__iter__"):
                 return SrcMethod(o, name)
+            if name == "close" and self.side == "ref":
+                if not o.has_aclose:
+                    raise PyRaise(ExcVal("AttributeError", ident=("attr", name)))
+                return Builtin("noop")
             if name == "aclose":
                 if not o.has_aclose:
                     raise PyRaise(ExcVal("AttributeError", ident=("attr", name)))
